@@ -11,6 +11,9 @@ CLAIMS = {
  "C02": ("CheckBalance / createBalanceDiagnostic modelled on the AST with decimals as (mantissa, exponent); C02_ast proves for EVERY posting list (unbounded decimals, any kinds, unit and total costs) that the verdict and the named differences are those of the exact rational sums. Every run opens generated documents (all number notations of G, balanced / off by exact residuals / missing amounts) on the real server and checks the published verdict against the rational rule evaluated on the structure the text was generated from, and the analyzer model against the parser's AST.",
          "Trusted: Coq kernel+VM; decimal library modelled; the lexer/parser step is checked per case, not proved (three notation classes are recorded known findings); G generator/printer in Go.",
          "Coq proof (rational-sum homomorphism, all posting lists) + end-to-end differential oracle", "5 C02"),
+ "C20": ("Account-balance aggregation and the posting / payee / tag counts are modelled; C20_sum proves, for every transaction list, that the figure per (account, commodity) is the exact rational sum of the explicitly posted amounts, and that sums and counts are additive over primary + included files (each file counted once per occurrence in FileOrder). Every run hovers every account, payee and tag of generated multi-file directories before and after edits and compares the displayed figures with exact aggregates over the scope the property names.",
+         "Trusted: Coq kernel+VM; parser output and the server's resolved transaction list are inputs of the model; markdown parsing in the harness; known finding tree_truncated_after_reload (root cause C11).",
+         "Coq proof of exact sums for all transaction lists + end-to-end differential oracle over include trees", "5 C20"),
  "C10": ("Include loader modelled at include-graph level (visited set, cache, both limits); the exact-cycle clause is refuted by three machine-checked witnesses (diamond, double include, count-based depth limit: recorded known findings); root-level verdicts proved for all file systems. Every run compares model, a stack-based reference traversal and the real loader on all 512 digraphs on 3 files plus random directories using every include form (relative, ./, absolute, ~/, dot-dot, glob).",
          "Trusted: Coq kernel+VM; graph-level abstraction (path and glob resolution run in the real code, results given to the model); termination/soundness of the traversal for all graphs is checked by the tie and oracle, not yet proved (ceiling).",
          "Coq refutation theorems + reference-traversal oracle + exhaustive small-graph correspondence", "5 C10"),
